@@ -147,7 +147,8 @@ pub open spec fn list_trail_post<T: UpdateTrailingTrivia>(s: Punctuated<T>, t: F
 pub proof fn lemma_pair_ext<T>(p: Pair<T>) ensures p == mk_pair(pair_value(p), pair_punct(p)) { }
 """
 
-NODE_SPEC = (node_specs("FunctionBody", "n_fb", [("end_token", "TokenReference", "ref")], rest=True)
+NODE_SPEC = (node_specs("TableConstructor", "n_tc", [("braces", "ContainedSpan", "ref")], rest=True)
+    + node_specs("FunctionBody", "n_fb", [("end_token", "TokenReference", "ref")], rest=True)
     + node_specs("MethodCall", "n_mc", [("colon_token", "TokenReference", "ref"), ("args", "FunctionArgs", "ref")], rest=True)
     + node_specs("If", "n_if", [("if_token", "TokenReference", "ref"), ("end_token", "TokenReference", "ref")], rest=True)
     + node_specs("Assignment", "n_asg", [("variables", "Punctuated<Var>", "ref"), ("expressions", "Punctuated<Expression>", "ref")], rest=True)
@@ -156,22 +157,45 @@ NODE_SPEC = (node_specs("FunctionBody", "n_fb", [("end_token", "TokenReference",
 // the leaves of an expression: their own implementations (FunctionCall, TableConstructor, Var, FunctionBody, the Luau nodes) are not under
 // contract in this unit; assumed: they keep the identity of the leaf (class C, the same assumption the other units make through
 // prelude/traits.rs). What IS verified below is the walk of the Expression implementations down to the first / last token.
-impl UpdateLeadingTrivia for Var {
-    open spec fn ul_post(&self, l: FormatTriviaType, r: &Self) -> bool { var_id(*r) == var_id(*self) }
-    #[verifier::external_body] fn update_leading_trivia(&self, leading_trivia: FormatTriviaType) -> (r: Self) { unimplemented!() }
+// Var, VarExpression, FunctionCall, TableConstructor: real text below. Their postconditions are frames (which part is updated, what stays);
+// that a frame keeps the identity of the leaf (var_id, call_id, table_id: uninterpreted in prelude/skel.rs, "the leaf's non-trivia content")
+// is stated as what identity means (definitional axioms, one per leaf kind)
+pub uninterp spec fn fc_prefix(c: FunctionCall) -> Prefix;
+pub uninterp spec fn fc_suffixes(c: FunctionCall) -> Seq<Suffix>;
+pub uninterp spec fn fc_rest(c: FunctionCall) -> int;
+pub uninterp spec fn ve_prefix(c: VarExpression) -> Prefix;
+pub uninterp spec fn ve_suffixes(c: VarExpression) -> Seq<Suffix>;
+pub uninterp spec fn ve_rest(c: VarExpression) -> int;
+pub assume_specification [FunctionCall::prefix] (c: &FunctionCall) -> (r: &Prefix) ensures *r == fc_prefix(*c);
+pub assume_specification [FunctionCall::with_prefix] (c: FunctionCall, p: Prefix) -> (r: FunctionCall) ensures fc_prefix(r) == p, fc_suffixes(r) == fc_suffixes(c), fc_rest(r) == fc_rest(c);
+pub assume_specification [FunctionCall::with_suffixes] (c: FunctionCall, v: Vec<Suffix>) -> (r: FunctionCall) ensures fc_suffixes(r) == v@, fc_prefix(r) == fc_prefix(c), fc_rest(r) == fc_rest(c);
+pub assume_specification [<FunctionCall as Clone>::clone] (c: &FunctionCall) -> (r: FunctionCall) ensures r == *c;
+pub assume_specification [VarExpression::prefix] (c: &VarExpression) -> (r: &Prefix) ensures *r == ve_prefix(*c);
+pub assume_specification [VarExpression::with_prefix] (c: VarExpression, p: Prefix) -> (r: VarExpression) ensures ve_prefix(r) == p, ve_suffixes(r) == ve_suffixes(c), ve_rest(r) == ve_rest(c);
+pub assume_specification [VarExpression::with_suffixes] (c: VarExpression, v: Vec<Suffix>) -> (r: VarExpression) ensures ve_suffixes(r) == v@, ve_prefix(r) == ve_prefix(c), ve_rest(r) == ve_rest(c);
+pub assume_specification [<VarExpression as Clone>::clone] (c: &VarExpression) -> (r: VarExpression) ensures r == *c;
+pub assume_specification [<Prefix as Clone>::clone] (c: &Prefix) -> (r: Prefix) ensures r == *c;
+#[verifier::external_body] pub fn fc_owned_suffixes(c: &FunctionCall) -> (r: Vec<Suffix>) ensures r@ == fc_suffixes(*c) { unimplemented!() /* c.suffixes().map(|x| x.to_owned()).collect() */ }
+#[verifier::external_body] pub fn ve_owned_suffixes(c: &VarExpression) -> (r: Vec<Suffix>) ensures r@ == ve_suffixes(*c) { unimplemented!() /* c.suffixes().map(|x| x.to_owned()).collect() */ }
+// prefix and last suffix updated as asked (an untouched side stays exactly what it was), every other suffix and everything else the same
+pub open spec fn chain_post(p1: Prefix, s1: Seq<Suffix>, l: FormatTriviaType, t: FormatTriviaType, p2: Prefix, s2: Seq<Suffix>) -> bool {
+    &&& (if l is NoChange { p2 == p1 } else { p1.ul_post(l, &p2) })
+    &&& s2.len() == s1.len()
+    &&& (forall|i: int| 0 <= i < s1.len() - 1 ==> #[trigger] s2[i] == s1[i])
+    &&& (s1.len() > 0 ==> (if t is NoChange { s2.last() == s1.last() } else { s1.last().utt_post(t, &s2.last()) }))
 }
-impl UpdateTrailingTrivia for Var {
-    open spec fn utt_post(&self, t: FormatTriviaType, r: &Self) -> bool { var_id(*r) == var_id(*self) }
-    #[verifier::external_body] fn update_trailing_trivia(&self, trailing_trivia: FormatTriviaType) -> (r: Self) { unimplemented!() }
+pub open spec fn var_lead_frame(s: Var, l: FormatTriviaType, r: Var) -> bool {
+    match (s, r) { (Var::Name(a), Var::Name(b)) => a.ul_post(l, &b), (Var::Expression(a), Var::Expression(b)) => a.ul_post(l, &*b), _ => false }
 }
-impl UpdateTrivia for FunctionCall {
-    open spec fn ut_post(&self, l: FormatTriviaType, t: FormatTriviaType, r: &Self) -> bool { call_id(*r) == call_id(*self) }
-    #[verifier::external_body] fn update_trivia(&self, leading_trivia: FormatTriviaType, trailing_trivia: FormatTriviaType) -> (r: Self) { unimplemented!() }
+pub open spec fn var_trail_frame(s: Var, t: FormatTriviaType, r: Var) -> bool {
+    match (s, r) { (Var::Name(a), Var::Name(b)) => a.utt_post(t, &b), (Var::Expression(a), Var::Expression(b)) => a.utt_post(t, &*b), _ => false }
 }
-impl UpdateTrivia for TableConstructor {
-    open spec fn ut_post(&self, l: FormatTriviaType, t: FormatTriviaType, r: &Self) -> bool { table_id(*r) == table_id(*self) }
-    #[verifier::external_body] fn update_trivia(&self, leading_trivia: FormatTriviaType, trailing_trivia: FormatTriviaType) -> (r: Self) { unimplemented!() }
-}
+// identity of a leaf = its content with the trivia of its first and last token left out (what the frames above change)
+pub proof fn axiom_var_id(s: Var, r: Var, l: FormatTriviaType, t: FormatTriviaType) requires var_lead_frame(s, l, r) || var_trail_frame(s, t, r), ensures var_id(r) == var_id(s) { admit(); }
+pub proof fn axiom_call_id(s: FunctionCall, r: FunctionCall, l: FormatTriviaType, t: FormatTriviaType)
+    requires chain_post(fc_prefix(s), fc_suffixes(s), l, t, fc_prefix(r), fc_suffixes(r)), fc_rest(r) == fc_rest(s), ensures call_id(r) == call_id(s) { admit(); }
+pub proof fn axiom_table_id(s: TableConstructor, r: TableConstructor, l: FormatTriviaType, t: FormatTriviaType)
+    requires n_tc_braces(&s).ut_post(l, t, &n_tc_braces(&r)), n_tc_rest(&r) == n_tc_rest(&s), ensures table_id(r) == table_id(s) { admit(); }
 // the identity of an anonymous function is that of its `function` token and of its body; a body's identity is that of everything in it but
 // the trivia of its `end` token (definitional)
 pub proof fn axiom_anon_fn(a: (TokenReference, FunctionBody), b: (TokenReference, FunctionBody))
@@ -309,6 +333,11 @@ def stmt_post():
     return ("    open spec fn ut_post(&self, l: FormatTriviaType, t: FormatTriviaType, r: &Self) -> bool {\n        match (*self, *r) {\n" + "\n".join(arms) + "\n            _ => false,\n        }\n    }\n")
 IMPL_SPECS["Stmt"] = stmt_post()
 IMPL_SPECS.update({
+    "Var:leading": "    open spec fn ul_post(&self, l: FormatTriviaType, r: &Self) -> bool { var_lead_frame(*self, l, *r) && var_id(*r) == var_id(*self) }\n",
+    "Var:trailing": "    open spec fn utt_post(&self, t: FormatTriviaType, r: &Self) -> bool { var_trail_frame(*self, t, *r) && var_id(*r) == var_id(*self) }\n",
+    "VarExpression": "    open spec fn ut_post(&self, l: FormatTriviaType, t: FormatTriviaType, r: &Self) -> bool { chain_post(ve_prefix(*self), ve_suffixes(*self), l, t, ve_prefix(*r), ve_suffixes(*r)) && ve_rest(*r) == ve_rest(*self) }\n",
+    "FunctionCall": "    open spec fn ut_post(&self, l: FormatTriviaType, t: FormatTriviaType, r: &Self) -> bool { chain_post(fc_prefix(*self), fc_suffixes(*self), l, t, fc_prefix(*r), fc_suffixes(*r)) && fc_rest(*r) == fc_rest(*self) && call_id(*r) == call_id(*self) }\n",
+    "TableConstructor": "    open spec fn ut_post(&self, l: FormatTriviaType, t: FormatTriviaType, r: &Self) -> bool { n_tc_braces(self).ut_post(l, t, &n_tc_braces(r)) && n_tc_rest(r) == n_tc_rest(self) && table_id(*r) == table_id(*self) }\n",
     "FunctionBody:trailing": "    open spec fn utt_post(&self, t: FormatTriviaType, r: &Self) -> bool { n_fb_end_token(self).utt_post(t, &n_fb_end_token(r)) && n_fb_rest(r) == n_fb_rest(self) }\n",
     "Parameter": """    open spec fn ut_post(&self, l: FormatTriviaType, t: FormatTriviaType, r: &Self) -> bool {
         match (*self, *r) { (full_moon::ast::Parameter::Ellipsis(a), full_moon::ast::Parameter::Ellipsis(b)) => a.ut_post(l, t, &b), (full_moon::ast::Parameter::Name(a), full_moon::ast::Parameter::Name(b)) => a.ut_post(l, t, &b), _ => false }
@@ -352,6 +381,12 @@ IMPL_SPECS.update({
     "Expression:leading": "    open spec fn ul_post(&self, l: FormatTriviaType, r: &Self) -> bool { skel(*r) == skel(*self) && lead_only(*self, l, *r) }\n",
     "Expression:trailing": "    open spec fn utt_post(&self, t: FormatTriviaType, r: &Self) -> bool { skel(*r) == skel(*self) && trail_only(*self, t, *r) }\n",
 })
+def chain_edits(owned, ax):
+    return [
+        Hole("this.suffixes().map(|x| x.to_owned()).collect();", owned + "(this);\n    let ghost s0 = suffixes@;", kind="wrapper", why="iterator chain: the suffixes as an owned Vec"),
+        After("suffixes.push(suffix.update_trailing_trivia(trailing))", "; proof { assert(suffixes@.len() == s0.len()); assert forall|i: int| 0 <= i < s0.len() - 1 implies #[trigger] suffixes@[i] == s0[i] by { assert(suffixes@[i] == s0.drop_last()[i]); } }"),
+        Hole("    this.to_owned().with_prefix(prefix).with_suffixes(suffixes)", "    let vx_r = this.to_owned().with_prefix(prefix).with_suffixes(suffixes);\n    proof { " + ax + " }\n    vx_r", kind="ghost-name", why="the result gets a name for the proof hint"),
+    ]
 MACRO_SHA = {"define_update_trivia": "feb7d5e26c2c3826", "define_update_leading_trivia": "f6ae4e2de25fd46b", "define_update_trailing_trivia": "6edbefd0f0260995"}
 
 def macro_impl(node, edits=(), attrs="", which="", contract=""):
@@ -527,6 +562,19 @@ def items():
             Hole("Expression::Function(anonymous_function) => Expression::Function(Box::new((\n            anonymous_function.0.to_owned(),\n            anonymous_function.1.update_trailing_trivia(trailing),\n        ))),",
                  "Expression::Function(anonymous_function) => { let vx_body = anonymous_function.1.update_trailing_trivia(trailing);\n            proof { axiom_token_lines(n_fb_end_token(&anonymous_function.1)); axiom_token_lines(n_fb_end_token(&vx_body)); axiom_anon_fn((anonymous_function.0, vx_body), **anonymous_function); }\n            Expression::Function(Box::new((\n            anonymous_function.0.to_owned(),\n            vx_body,\n        ))) },", kind="ghost-name", why="the updated body gets a name for the proof hint; evaluation order: the token's clone is taken after the body's update instead of before (both are pure)"),
         ]),
+        macro_impl("Var", which="leading", edits=[
+            Hole("Var::Name(token_reference) => Var::Name(token_reference.update_leading_trivia(leading)),", "Var::Name(token_reference) => { let vx_r = Var::Name(token_reference.update_leading_trivia(leading)); proof { axiom_var_id(*this, vx_r, leading, FormatTriviaType::NoChange); } vx_r },", kind="ghost-name", why="the result gets a name for the proof hint (identity of the leaf)"),
+            Hole("Var::Expression(Box::new(var_expresion.update_leading_trivia(leading)))", "{ let vx_r = Var::Expression(Box::new(var_expresion.update_leading_trivia(leading))); proof { axiom_var_id(*this, vx_r, leading, FormatTriviaType::NoChange); } vx_r }", kind="ghost-name", why="the result gets a name for the proof hint (identity of the leaf)"),
+        ]),
+        macro_impl("Var", which="trailing", edits=[
+            Hole("Var::Name(token_reference) => Var::Name(token_reference.update_trailing_trivia(trailing)),", "Var::Name(token_reference) => { let vx_r = Var::Name(token_reference.update_trailing_trivia(trailing)); proof { axiom_var_id(*this, vx_r, FormatTriviaType::NoChange, trailing); } vx_r },", kind="ghost-name", why="the result gets a name for the proof hint (identity of the leaf)"),
+            Hole("Var::Expression(Box::new(var_expression.update_trailing_trivia(trailing)))", "{ let vx_r = Var::Expression(Box::new(var_expression.update_trailing_trivia(trailing))); proof { axiom_var_id(*this, vx_r, FormatTriviaType::NoChange, trailing); } vx_r }", kind="ghost-name", why="the result gets a name for the proof hint (identity of the leaf)"),
+        ]),
+        macro_impl("VarExpression", edits=chain_edits("ve_owned_suffixes", "")),
+        macro_impl("FunctionCall", edits=chain_edits("fc_owned_suffixes", "axiom_call_id(*this, vx_r, leading, trailing);")),
+        macro_impl("TableConstructor", edits=[
+            Hole("    this.to_owned()\n        .with_braces(this.braces().update_trivia(leading, trailing))", "    let vx_r = this.to_owned()\n        .with_braces(this.braces().update_trivia(leading, trailing));\n    proof { axiom_table_id(*this, vx_r, leading, trailing); }\n    vx_r", kind="ghost-name", why="the result gets a name for the proof hint (identity of the leaf)"),
+        ]),
         macro_impl("FunctionBody", which="trailing"),
         macro_impl("Parameter"),
         macro_impl("FunctionArgs"),
@@ -534,8 +582,21 @@ def items():
         macro_impl("MethodCall"),
         macro_impl("Call"),
         macro_impl("Suffix"),
-        macro_impl("Prefix", which="leading"),
-        macro_impl("Prefix", which="trailing"),
+        # Prefix: the walk Expression -> Var / FunctionCall -> (VarExpression ->) Prefix -> Expression is a cycle through five trait implementations;
+        # Verus wants the implementations of a trait that carries spec functions in an order without cycles, so one of them has to stay an
+        # assumed interface: Prefix (two four-line matches), with an opaque postcondition (the spec functions must not form a cycle either)
+        Raw("""
+pub uninterp spec fn prefix_ul_post(s: Prefix, l: FormatTriviaType, r: Prefix) -> bool;
+pub uninterp spec fn prefix_utt_post(s: Prefix, t: FormatTriviaType, r: Prefix) -> bool;
+impl UpdateLeadingTrivia for Prefix {
+    open spec fn ul_post(&self, l: FormatTriviaType, r: &Self) -> bool { prefix_ul_post(*self, l, *r) }
+    #[verifier::external_body] fn update_leading_trivia(&self, leading_trivia: FormatTriviaType) -> (r: Self) { unimplemented!() }
+}
+impl UpdateTrailingTrivia for Prefix {
+    open spec fn utt_post(&self, t: FormatTriviaType, r: &Self) -> bool { prefix_utt_post(*self, t, *r) }
+    #[verifier::external_body] fn update_trailing_trivia(&self, trailing_trivia: FormatTriviaType) -> (r: Self) { unimplemented!() }
+}
+""", module=M),
         macro_impl("ContainedSpan"),
         macro_impl("BinOp"),
         macro_impl("If"),
